@@ -139,6 +139,17 @@ func main() {
 		}
 		return sc
 	}
+	// an fsync that fails (EIO, or ENOSPC reported at fsync time): nothing the failed call was for is acknowledged
+	faultScs := func(n int) {
+		for i := 0; i < n; i++ {
+			o := scenOpts{Gzip: i%2 == 0, WorkDir: i%3 == 0, SyncMs: []int{20, 150}[i%2], MaxInFlight: []int{1, 3, 200}[i%3],
+				DateFmt: "%Y-%m-%d_%H"}
+			sc := mk(o, "drainterm")
+			sc.Hups, sc.Foreign, sc.Probe, sc.Restart, sc.Post = nil, 0, false, "", 0
+			sc.Fault = fmt.Sprintf("fsync,fdatasync:%s:%d", []string{"EIO", "ENOSPC"}[i%2], 1+rng.Intn(4))
+			scs = append(scs, sc)
+		}
+	}
 	dims := func(o *scenOpts) {
 		o.DateFmt = []string{"%Y-%m-%d_%H", "%Y%m%d_%H%M%S"}[rng.Intn(2)]
 		o.SyncMs = []int{20, 150, 1000}[rng.Intn(3)]
@@ -221,6 +232,11 @@ func main() {
 			sc.Backlog = sc.NMsgs - sc.Post // everything of the first phase is there at once: one big pending batch
 			scs = append(scs, sc)
 		}
+	}
+	if quick {
+		faultScs(8)
+	} else {
+		faultScs(48)
 	}
 	if len(kps) > 0 {
 		sort.Slice(kps, func(a, b int) bool { return fmt.Sprint(kps[a]) < fmt.Sprint(kps[b]) })
